@@ -133,7 +133,7 @@ def mdd_table_problems(d, held_counts, after_gc=False):
     return bad
 
 
-def mdd_ops(ctx, lens, steps):
+def mdd_ops(ctx, lens, steps, P='C15', rejected=0.06):
     """random MDD histories: functions by value tables"""
     rng = ctx.rng
     s = ctx.session(f'mdd ops lens={lens}')
@@ -165,7 +165,7 @@ def mdd_ops(ctx, lens, steps):
             u = build(tab)
             if u is not None:
                 if table(u) != tab:
-                    ctx.violation('C15:find_or_add', 'node built bottom-up denotes another table', case)
+                    ctx.violation(P + ':find_or_add', 'node built bottom-up denotes another table', case)
                     return
                 if abs(u) != 1 and u not in held:
                     s.op(A, 'incref', u)
@@ -189,14 +189,40 @@ def mdd_ops(ctx, lens, steps):
                 exp = tuple(f(x, y) for x, y in zip(ta, tc))
             ctx.count('mdd:' + name)
             if r is None or table(r) != exp:
-                ctx.violation('C15:mdd-op', f'MDD {name} is not pointwise', case)
+                ctx.violation(P + ':mdd-op', f'MDD {name} is not pointwise', case)
                 return
             # canonicity: equal tables <=> equal references
             for h, th in held.items():
                 if (th == exp) != (h == r):
-                    ctx.violation('C15:mdd-canonical', f'{h} and {r}: equal tables {th == exp}, equal refs {h == r}', case)
+                    ctx.violation(P + ':mdd-canonical', f'{h} and {r}: equal tables {th == exp}, equal refs {h == r}', case)
                     return
-        elif k < 0.8 and held:
+        elif k < 0.75 + rejected and held:
+            # a REJECTED call: unknown successor at some position, wrong arity, bad level,
+            # unknown operand; nothing may change (the counts are re-checked below)
+            lvl = rng.randrange(nv)
+            good = [rng.choice(list(held) + [1, -1]) for _ in range(lens[lvl])]
+            unknown = max(d._succ) + rng.choice([1, 7])
+            kind = rng.choice(['unknown-successor', 'arity', 'level', 'ite-unknown', 'incref-unknown'])
+            if kind == 'unknown-successor':
+                pos = rng.randrange(lens[lvl])
+                kids = list(good)
+                kids[pos] = unknown * rng.choice([1, -1])
+                if len(set(kids)) == 1:
+                    kids = kids + []    # (all equal: the elimination rule may answer first)
+                r = s.op(A, 'find_or_add', lvl, kids)
+            elif kind == 'arity':
+                r = s.op(A, 'find_or_add', lvl, good + [1])
+            elif kind == 'level':
+                r = s.op(A, 'find_or_add', nv + 1, good)
+            elif kind == 'ite-unknown':
+                r = s.op(A, 'ite', rng.choice(list(held)), unknown, rng.choice(list(held)))
+            else:
+                r = s.op(A, 'incref', unknown)
+            ctx.count('mdd:rejected:' + kind)
+            if s.ok() and not (kind == 'unknown-successor' and len(set(kids)) == 1):
+                ctx.violation(P + ':mdd-accepted', f'MDD call with {kind} was accepted', case)
+                return
+        elif k < 0.8 + rejected and held:
             u = rng.choice(list(held))
             s.op(A, 'decref', u)
             del held[u]
@@ -218,7 +244,7 @@ def mdd_ops(ctx, lens, steps):
             exp2 = tuple(f(x, y) for x, y in zip(*tabs2))
             ctx.count('mdd:reuse')
             if r2 is None or abs(r2) not in d._succ or table(r2) != exp2:
-                ctx.violation('C15:mdd-op', f'MDD {name} after collection and re-use of node numbers is not pointwise', case)
+                ctx.violation(P + ':mdd-op', f'MDD {name} after collection and re-use of node numbers is not pointwise', case)
                 return
         else:
             s.op(A, 'gc')
@@ -231,7 +257,7 @@ def mdd_ops(ctx, lens, steps):
                 keep.add(u)
                 stack += [abs(x) for x in d._succ[u][1:] if x is not None] if u in d._succ else []
             if set(d._succ) != keep:
-                ctx.violation('C15:mdd-gc', f'after collection nodes {sorted(d._succ)}, referenced closure {sorted(keep)}', case)
+                ctx.violation(P + ':mdd-gc', f'after collection nodes {sorted(d._succ)}, referenced closure {sorted(keep)}', case)
                 return
         ctx.case(('mddop', tuple(lens), id(s), step), True)
         hc = {}
@@ -239,11 +265,11 @@ def mdd_ops(ctx, lens, steps):
             hc[abs(u)] = hc.get(abs(u), 0) + 1
         bad = mdd_table_problems(d, hc, after_gc=s.lines[-1].split()[1:2] == ['gc'])
         if bad:
-            ctx.violation('C15:mdd-gc', f'{bad[:3]}', case)
+            ctx.violation(P + ':mdd-gc', f'{bad[:3]}', case)
             return
         for u, tab in held.items():
             if abs(u) not in d._succ or table(u) != tab:
-                ctx.violation('C15:mdd-held-changed', f'held MDD reference {u} changed', case)
+                ctx.violation(P + ':mdd-held-changed', f'held MDD reference {u} changed', case)
                 return
     ctx.sample(dict(stream=s.label, first_lines=s.lines[:8]))
 
